@@ -47,13 +47,13 @@ func c01Step(w *world) {
 }
 
 func VerifC01_History() {
-	w := newWorld(c01Cfg(vf.Bound("batch", 1, 2)), c01Kinds())
+	w := newWorld(c01Cfg(vf.Bound("batch", 1, 1)), c01Kinds())
 	if vf.Bool("at-dispatch-limit") {
 		w.ioc.Dispatched = MaxCallbackDispatch
 		vf.Reach("deferred-path")
 	}
-	w.nest = vf.Bound("nested-actions", 1, 2)
-	K := vf.Bound("k", 3, 4)
+	w.nest = vf.Bound("nested-actions", 1, 1)
+	K := vf.Bound("k", 3, 3)
 	vf.Unwind(16)
 	for s := 0; s < K; s++ {
 		c01Step(w)
@@ -73,7 +73,7 @@ func VerifC01_BothDirections() {
 	w.settle()
 	vf.Assert("both-armed", vf.All(w.armed(0, wRead), w.armed(0, wWrite)))
 	w.ioc.Dispatched = 0
-	K := vf.Bound("k", 2, 3)
+	K := vf.Bound("k", 2, 2)
 	for s := 0; s < K; s++ {
 		c01Step(w)
 		w.settle()
@@ -85,7 +85,7 @@ func VerifC01_BothDirections() {
 // carry their own copy of the schedule / dispatch / de-register logic.
 func VerifC01_OtherObjects() {
 	what := wkListener + vf.Choice("object", 3)
-	cfg := c01Cfg(vf.Bound("batch", 1, 2))
+	cfg := c01Cfg(vf.Bound("batch", 1, 1))
 	if what == wkAdapter {
 		cfg.AllowAgain = false // a net.Conn read blocks instead of returning would-block
 	}
@@ -95,7 +95,7 @@ func VerifC01_OtherObjects() {
 		vf.Reach("deferred-path")
 	}
 	w.nest = 1
-	K := vf.Bound("k", 3, 4)
+	K := vf.Bound("k", 3, 3)
 	vf.Unwind(16)
 	for s := 0; s < K; s++ {
 		switch vf.Choice("action", 5) {
